@@ -35,6 +35,8 @@ func main() {
 		os.Exit(cmdList(os.Args[2:]))
 	case "replay":
 		os.Exit(cmdReplay(os.Args[2:]))
+	case "loops":
+		os.Exit(cmdLoops(os.Args[2:]))
 	default:
 		usage()
 	}
@@ -230,4 +232,45 @@ func abbrevModel(v string) string {
 		v = v[:300] + "..."
 	}
 	return v
+}
+
+// cmdLoops prints the loop ordinals of a function with the source line of each loop head.
+func cmdLoops(args []string) int {
+	fs := flag.NewFlagSet("loops", flag.ExitOnError)
+	repo := fs.String("repo", "/repo", "repository")
+	fn := fs.String("func", "", "function key")
+	fs.Parse(args)
+	P, err := loadAll(*repo)
+	if err != nil {
+		fmt.Fprintln(os.Stderr, "engine error:", err)
+		return 2
+	}
+	f := P.funcs[*fn]
+	if f == nil {
+		fmt.Fprintln(os.Stderr, "no such function")
+		return 2
+	}
+	g := newGen(P, f, nil, ModeInt)
+	fr := g.newFrame(f, 0)
+	fr.findLoops()
+	type row struct {
+		ord  int
+		line string
+	}
+	var rows []row
+	for h, li := range fr.loops {
+		line := ""
+		for _, in := range h.Instrs {
+			if in.Pos().IsValid() {
+				line = g.posOf(in)
+				break
+			}
+		}
+		rows = append(rows, row{li.ord, line + " (" + h.Comment + ")"})
+	}
+	sort.Slice(rows, func(i, j int) bool { return rows[i].ord < rows[j].ord })
+	for _, r := range rows {
+		fmt.Printf("loop %d: %s\n", r.ord, r.line)
+	}
+	return 0
 }
